@@ -303,9 +303,23 @@ def check(run, prog, tier):
         decf = {f.name for f, b, i, n in sites["--"]}
         for f, b, i, n in sites["--"]:
             run.saw(f)
-            after = cfgq.reach_set(f, b.live_succ(), avoid_blocks=[b.id])
-            twice = [(c.get("fn"), c.get("l")) for b2, i2, c in f.calls() if c.get("fn") in decf and c.get("fn") != f.name and (b2.id in after or (b2.id == b.id and i2 > i))]
-            again = [n2.get("l") for f2, b2, i2, n2 in sites["--"] if f2 is f and n2 is not n and b2.id in after]
+            # "the same entry": the path ends where the function takes the next entry into its cursor (an assignment to a
+            # local of the entry type); statements in front of that assignment in its block still belong to this entry
+            taken = {}
+            for b2, i2, n2 in f.nodes():
+                if n2.get("k") == "Asg" and n2.get("op") == "=" and strip(n2["L"]).get("k") == "Ref" and strip(n2["L"]).get("d") in ("local", "slocal") and "pending_call" in (strip(n2["L"]).get("t") or ""):
+                    taken.setdefault(b2.id, i2)
+                    taken[b2.id] = min(taken[b2.id], i2)
+            cuts = [x for x in taken if x != b.id or taken[x] > i]
+            after = cfgq.reach_set(f, b.live_succ(), avoid_blocks=[b.id] + cuts)
+            edge_of = {x for x in cuts if x != b.id and any(x in f.blocks[a].live_succ() for a in list(after) + [b.id])}
+
+            def behind(b2, i2):
+                if b2.id == b.id:
+                    return i2 > i and (b.id not in taken or taken[b.id] < i or i2 < taken[b.id])
+                return b2.id in after or (b2.id in edge_of and i2 < taken[b2.id])
+            twice = [(c.get("fn"), c.get("l")) for b2, i2, c in f.calls() if c.get("fn") in decf and c.get("fn") != f.name and behind(b2, i2)]
+            again = [n2.get("l") for f2, b2, i2, n2 in sites["--"] if f2 is f and n2 is not n and behind(b2, i2)]
             bad = twice or again
             run.ob("C10-e", "count:%s:%s:%s" % (cname, f.name, n.get("l") and sites["--"].index((f, b, i, n))), not bad,
                    "`%s--` in %s(): no second decrement on any path behind it" % (cname, f.name) if not bad else
